@@ -95,7 +95,15 @@ impl Parser {
 
         let class_type = input.user_data().get_type_of_executing_class();
 
-        if !expected_return_type.eq_complex(
+        // an optional (or nil) cannot be returned where the signature promises a plain value
+        let returns_optional_as_plain = supplied_type.disregard_distractors(false).is_optional().0
+            && !expected_return_type
+                .disregard_distractors(false)
+                .is_optional()
+                .0;
+
+        if returns_optional_as_plain
+            || !expected_return_type.eq_complex(
             &Cow::Borrowed(supplied_type),
             &TypecheckFlags::use_class(class_type).lhs_unwrap(true),
         ) {
